@@ -12,7 +12,11 @@
 (*                          in the last second: all must be admitted,      *)
 (*   pass/fail(which)       the oldest or newest outstanding request       *)
 (*                          reports,                                       *)
-(*   passn/failn(m)         the m oldest outstanding requests report.      *)
+(*   passn/failn(m)         the m oldest outstanding requests report,      *)
+(*   quiet(n)               n times: one request is admitted (CPU below    *)
+(*                          the threshold, no recent overload) and reports *)
+(*                          Fail at once - low-concurrency traffic that    *)
+(*                          completes without ever feeding the windows.    *)
 (* Script[i] restricts which operations and advances are offered at        *)
 (* position i (scripted families keep exhaustive generation focused).      *)
 (* The final step lets every outstanding request report (in-flight count   *)
@@ -74,29 +78,41 @@ Macro(d, o) ==
   /\ now' = t1
   /\ UNCHANGED fin
   /\ CASE o.op = "allow" ->
-            LET may == /\ Hot(o.over, over, t1) /\ Len(starts) > cap /\ maxSeen > cap IN
+            LET may == /\ Hot(o.over, over, t1) /\ Len(starts) > cap /\ maxSeen > cap /\ ~Calm(highs, cap) IN
             /\ StatsOK(pb, rb, mb)
             /\ o.drop => may
             /\ ~o.drop => Len(starts) < MaxFly
             /\ passBk' = pb /\ rtBk' = rb /\ msBk' = mb
             /\ over' = IF o.over THEN [seen |-> TRUE, at |-> t1] ELSE over
             /\ starts' = IF o.drop THEN starts ELSE Append(starts, t1)
-            /\ UNCHANGED maxSeen
+            /\ UNCHANGED <<maxSeen, highs>>
             /\ out' = [op |-> "allow", d |-> d, over |-> o.over, drop |-> o.drop, mayDrop |-> may,
-                       hot |-> Hot(o.over, over, t1), cap |-> cap, flying |-> Len(starts'), maxSeen |-> maxSeen]
+                       hot |-> Hot(o.over, over, t1), cap |-> cap, flying |-> Len(starts'), maxSeen |-> maxSeen,
+                       calm |-> Calm(highs, cap), smBound |-> SmLevel(highs) + 1]
        [] o.op = "burst" ->
             /\ ~Recently(over, t1)
             /\ Len(starts) + o.n <= MaxFly
             /\ passBk' = pb /\ rtBk' = rb /\ msBk' = mb
             /\ starts' = starts \o [i \in 1..o.n |-> t1]
-            /\ UNCHANGED <<over, maxSeen>>
-            /\ out' = [op |-> "burst", d |-> d, n |-> o.n, flying |-> Len(starts'), maxSeen |-> maxSeen]
+            /\ UNCHANGED <<over, maxSeen, highs>>
+            /\ out' = [op |-> "burst", d |-> d, n |-> o.n, flying |-> Len(starts'), maxSeen |-> maxSeen,
+                       smBound |-> SmLevel(highs) + 1]
+       [] o.op = "quiet" ->
+            /\ ~Recently(over, t1)
+            /\ Len(starts) + 1 <= MaxFly
+            /\ passBk' = pb /\ rtBk' = rb /\ msBk' = mb
+            /\ maxSeen' = Max2(maxSeen, Len(starts))
+            /\ highs' = PushSame(highs, Len(starts), o.n)
+            /\ UNCHANGED <<over, starts>>
+            /\ out' = [op |-> "quiet", d |-> d, n |-> o.n, flying |-> Len(starts), maxSeen |-> maxSeen',
+                       smBound |-> SmLevel(highs') + 1]
        [] o.op \in {"pass", "fail"} ->
             LET i == IF o.which = "old" THEN 1 ELSE Len(starts) IN
             /\ Len(starts) >= 1
             /\ (o.which = "new" => Len(starts) >= 2)
             /\ starts' = RemoveAt(starts, i)
             /\ maxSeen' = Max2(maxSeen, Len(starts) - 1)
+            /\ highs' = PushOne(highs, Len(starts) - 1)
             /\ passBk' = IF o.op = "pass" THEN [pb EXCEPT ![0] = @ + 1] ELSE pb
             /\ rtBk' = IF o.op = "pass"
                          THEN [rb EXCEPT ![0] = [sum |-> @.sum + (t1 - starts[i]), count |-> @.count + 1]]
@@ -104,17 +120,19 @@ Macro(d, o) ==
             /\ msBk' = IF o.op = "pass" THEN [mb EXCEPT ![0] = @ + CeilMs(t1 - starts[i])] ELSE mb
             /\ UNCHANGED over
             /\ out' = [op |-> o.op, d |-> d, i |-> i, rt |-> t1 - starts[i],
-                       flying |-> Len(starts) - 1, maxSeen |-> maxSeen']
+                       flying |-> Len(starts) - 1, maxSeen |-> maxSeen', smBound |-> SmLevel(highs') + 1]
        [] o.op \in {"passn", "failn"} ->
             LET n == IF o.m = 0 THEN Len(starts) ELSE o.m IN
             /\ n >= 2 /\ n <= Len(starts)
             /\ starts' = SubSeq(starts, n + 1, Len(starts))
             /\ maxSeen' = Max2(maxSeen, Len(starts) - 1)
+            /\ highs' = PushRun(highs, Len(starts), n)
             /\ passBk' = IF o.op = "passn" THEN PassN(pb, rb, mb, starts, t1, n).p ELSE pb
             /\ rtBk' = IF o.op = "passn" THEN PassN(pb, rb, mb, starts, t1, n).r ELSE rb
             /\ msBk' = IF o.op = "passn" THEN PassN(pb, rb, mb, starts, t1, n).m ELSE mb
             /\ UNCHANGED over
-            /\ out' = [op |-> o.op, d |-> d, n |-> n, flying |-> Len(starts) - n, maxSeen |-> maxSeen']
+            /\ out' = [op |-> o.op, d |-> d, n |-> n, flying |-> Len(starts) - n, maxSeen |-> maxSeen',
+                       smBound |-> SmLevel(highs') + 1]
   /\ hist' = Append(hist, out')
 
 Ops ==
@@ -122,6 +140,7 @@ Ops ==
   \cup {[op |-> "burst", n |-> n] : n \in {1, 3, 30, 120}}
   \cup {[op |-> k, which |-> w] : k \in {"pass", "fail"}, w \in {"old", "new"}}
   \cup {[op |-> k, m |-> m] : k \in {"passn", "failn"}, m \in {0, 2, 10}}
+  \cup {[op |-> "quiet", n |-> n] : n \in {40, CalmK}}
 
 \* names under which Script selects operations
 Name(o) ==
@@ -134,7 +153,8 @@ Finish ==
   /\ fin' = TRUE
   /\ starts' = <<>>
   /\ maxSeen' = IF Len(starts) > 0 THEN Max2(maxSeen, Len(starts) - 1) ELSE maxSeen
-  /\ out' = [op |-> "finish", n |-> Len(starts), flying |-> 0, maxSeen |-> maxSeen']
+  /\ highs' = IF Len(starts) > 0 THEN PushRun(highs, Len(starts), Len(starts)) ELSE highs
+  /\ out' = [op |-> "finish", n |-> Len(starts), flying |-> 0, maxSeen |-> maxSeen', smBound |-> SmLevel(highs') + 1]
   /\ hist' = Append(hist, out')
   /\ UNCHANGED <<now, passBk, rtBk, over, nops, msBk>>
 
